@@ -4,8 +4,9 @@ package main
 // C18 check to obtain, WITHOUT building or running the repository, the byte
 // string an SGR encoder writes for a given list of styles and the style an SGR
 // consumer computes for a given parameter list. Values are ints (wrapped to
-// their static type), bools, strings, slices, structs (lazy zero fields),
-// pointers and string builders. Everything the evaluator does not understand
+// their static type), bools, strings, slices, arrays, structs (lazy zero fields),
+// pointers, string builders and function values (function literals with the
+// frame they capture, method values, declared functions). Everything the evaluator does not understand
 // aborts the run with a reason (the rule then reports `undecided`); an
 // out-of-range index or nil dereference of the analysed code is recorded as a
 // simulated panic (the rule reports it as a violation of C18.e).
@@ -36,14 +37,29 @@ const (
 	c18Nil
 	c18Builder
 	c18Tuple
+	c18Array // fixed-size array: value semantics (c18Copy copies the elements); ref is a *c18SliceV over the whole backing
+	c18Func  // function value: closure, method value or declared function (ref is a *c18FuncV)
 )
+
+// c18FuncV is a function value: a function literal with the frame it was created in (variables are captured by
+// reference), or a declared function / method with its bound receiver.
+type c18FuncV struct {
+	lit  *ast.FuncLit
+	fr   *c18Frame
+	fi   *FuncInfo
+	recv *c18Val
+}
+
+func (v c18Val) fn() *c18FuncV { p, _ := v.ref.(*c18FuncV); return p }
+
+const c18MaxArray = 4096
 
 type c18Val struct {
 	k   c18Kind
 	b   bool
 	i   int64
 	s   string
-	ref any // *c18SliceV | *c18StructV | *c18Val (pointer target) | *strings.Builder | []c18Val (tuple)
+	ref any // *c18SliceV | *c18StructV | *c18Val (pointer target) | *strings.Builder | []c18Val (tuple) | *c18FuncV
 }
 
 type c18SliceV struct {
@@ -108,6 +124,15 @@ func c18Zero(t types.Type) c18Val {
 		return c18Val{}
 	case *types.Struct:
 		return c18Val{k: c18Struct, ref: &c18StructV{t: u, f: make([]*c18Val, u.NumFields())}}
+	case *types.Array:
+		if u.Len() < 0 || u.Len() > c18MaxArray {
+			return c18Val{}
+		}
+		arr := make([]c18Val, u.Len())
+		for i := range arr {
+			arr[i] = c18Zero(u.Elem())
+		}
+		return c18Val{k: c18Array, ref: &c18SliceV{arr: &arr, lo: 0, hi: len(arr)}}
 	case *types.Pointer, *types.Slice, *types.Map, *types.Chan, *types.Signature, *types.Interface:
 		return c18Val{k: c18Nil}
 	}
@@ -116,6 +141,14 @@ func c18Zero(t types.Type) c18Val {
 
 // c18Copy gives value semantics to structs (deep copy of materialised fields); slices, pointers and builders share.
 func c18Copy(v c18Val) c18Val {
+	if v.k == c18Array {
+		src := v.slice()
+		arr := make([]c18Val, src.hi-src.lo)
+		for i := range arr {
+			arr[i] = c18Copy((*src.arr)[src.lo+i])
+		}
+		return c18Val{k: c18Array, ref: &c18SliceV{arr: &arr, lo: 0, hi: len(arr)}}
+	}
 	if v.k != c18Struct {
 		return v
 	}
@@ -160,6 +193,21 @@ func c18Equal(a, b c18Val) (eq bool, ok bool) {
 		return a.s == b.s, true
 	case c18Ptr:
 		return a.ptr() == b.ptr(), true
+	case c18Array:
+		sa, sb := a.slice(), b.slice()
+		if sa.hi-sa.lo != sb.hi-sb.lo {
+			return false, false
+		}
+		for i := 0; i < sa.hi-sa.lo; i++ {
+			e, ok := c18Equal((*sa.arr)[sa.lo+i], (*sb.arr)[sb.lo+i])
+			if !ok {
+				return false, false
+			}
+			if !e {
+				return false, true
+			}
+		}
+		return true, true
 	case c18Struct:
 		sa, sb := a.strct(), b.strct()
 		if sa.t.NumFields() != sb.t.NumFields() {
@@ -211,6 +259,7 @@ type c18AbortT struct{ msg string }
 type c18Event struct {
 	call *ast.CallExpr
 	text string
+	tmpl string // the format string the text was produced from (Printf-like sinks), else the text itself
 }
 
 type c18Machine struct {
@@ -305,11 +354,23 @@ func (m *c18Machine) gopanic(format string, a ...any) {
 }
 
 type c18Frame struct {
-	info *types.Info
-	pk   *packages.Package
-	env  map[types.Object]*c18Val
-	ret  []c18Val
-	lax  bool // region mode: unbound locals read as unknown
+	info   *types.Info
+	pk     *packages.Package
+	env    map[types.Object]*c18Val
+	ret    []c18Val
+	lax    bool      // region mode: unbound locals read as unknown
+	parent *c18Frame // frame a function literal was created in (its free variables live there)
+}
+
+// lookup finds the storage of a local variable in the frame or, for the body of a function literal, in the frames
+// enclosing it.
+func (fr *c18Frame) lookup(obj types.Object) (*c18Val, bool) {
+	for f := fr; f != nil; f = f.parent {
+		if b, ok := f.env[obj]; ok {
+			return b, true
+		}
+	}
+	return nil, false
 }
 
 const (
@@ -412,15 +473,35 @@ func (m *c18Machine) callFunc(fi *FuncInfo, recv *c18Val, args []c18Val, ellipsi
 	if fi == nil || fi.Decl.Body == nil {
 		m.abort("function without body")
 	}
+	return m.invoke(fi.Name, fi.Pkg, fi.Decl.Recv, fi.Decl.Type, fi.Decl.Body, fi.Obj.Type().(*types.Signature), nil, recv, args, ellipsis)
+}
+
+// callValue calls a function value (closure, method value, declared function).
+func (m *c18Machine) callValue(f *c18FuncV, args []c18Val, ellipsis bool) []c18Val {
+	if f == nil {
+		m.gopanic("call of a nil function value")
+	}
+	if f.lit != nil {
+		sig, ok := f.fr.info.TypeOf(f.lit).(*types.Signature)
+		if !ok {
+			m.abort("function literal without a signature")
+		}
+		return m.invoke("function literal", f.fr.pk, nil, f.lit.Type, f.lit.Body, sig, f.fr, nil, args, ellipsis)
+	}
+	return m.callFunc(f.fi, f.recv, args, ellipsis)
+}
+
+// invoke interprets a function body. parent is the defining frame of a function literal (nil for declared functions).
+func (m *c18Machine) invoke(name string, pk *packages.Package, recvList *ast.FieldList, ftype *ast.FuncType, body *ast.BlockStmt, sig *types.Signature, parent *c18Frame, recv *c18Val, args []c18Val, ellipsis bool) []c18Val {
 	m.depth++
 	defer func() { m.depth-- }()
 	if m.depth > 24 {
-		m.abort("call depth exceeded in %s", fi.Name)
+		m.abort("call depth exceeded in %s", name)
 	}
-	info := fi.Pkg.TypesInfo
-	fr := &c18Frame{info: info, pk: fi.Pkg, env: map[types.Object]*c18Val{}}
-	if fi.Decl.Recv != nil && recv != nil {
-		for _, f := range fi.Decl.Recv.List {
+	info := pk.TypesInfo
+	fr := &c18Frame{info: info, pk: pk, env: map[types.Object]*c18Val{}, parent: parent, lax: parent != nil && parent.lax}
+	if recvList != nil && recv != nil {
+		for _, f := range recvList.List {
 			for _, n := range f.Names {
 				if n.Name != "_" {
 					v := c18Copy(*recv)
@@ -429,10 +510,9 @@ func (m *c18Machine) callFunc(fi *FuncInfo, recv *c18Val, args []c18Val, ellipsi
 			}
 		}
 	}
-	sig := fi.Obj.Type().(*types.Signature)
 	np := sig.Params().Len()
 	i := 0
-	for _, f := range fi.Decl.Type.Params.List {
+	for _, f := range ftype.Params.List {
 		names := f.Names
 		if len(names) == 0 {
 			i++
@@ -451,7 +531,7 @@ func (m *c18Machine) callFunc(fi *FuncInfo, recv *c18Val, args []c18Val, ellipsi
 			} else if i < len(args) {
 				v = c18Copy(args[i])
 			} else {
-				m.abort("missing argument %d in call of %s", i, fi.Name)
+				m.abort("missing argument %d in call of %s", i, name)
 			}
 			if n.Name != "_" {
 				fr.env[info.Defs[n]] = &v
@@ -460,8 +540,8 @@ func (m *c18Machine) callFunc(fi *FuncInfo, recv *c18Val, args []c18Val, ellipsi
 		}
 	}
 	var named []types.Object
-	if fi.Decl.Type.Results != nil {
-		for _, f := range fi.Decl.Type.Results.List {
+	if ftype.Results != nil {
+		for _, f := range ftype.Results.List {
 			for _, n := range f.Names {
 				v := c18Zero(info.Defs[n].Type())
 				fr.env[info.Defs[n]] = &v
@@ -469,7 +549,7 @@ func (m *c18Machine) callFunc(fi *FuncInfo, recv *c18Val, args []c18Val, ellipsi
 			}
 		}
 	}
-	ctl := m.block(fr, fi.Decl.Body.List)
+	ctl := m.block(fr, body.List)
 	if ctl.kind == c18CtlReturn && fr.ret != nil {
 		return fr.ret
 	}
@@ -539,13 +619,17 @@ func (m *c18Machine) builderOf(v c18Val) *strings.Builder {
 }
 
 func (m *c18Machine) emit(call *ast.CallExpr, b *strings.Builder, text string) {
+	m.emitT(call, b, text, text)
+}
+
+func (m *c18Machine) emitT(call *ast.CallExpr, b *strings.Builder, text, tmpl string) {
 	if b != nil {
 		b.WriteString(text)
 	} else {
 		m.out.WriteString(text)
 	}
 	if m.trace {
-		m.events = append(m.events, c18Event{call, text})
+		m.events = append(m.events, c18Event{call, text, tmpl})
 	}
 }
 
@@ -607,6 +691,22 @@ func (m *c18Machine) call(fr *c18Frame, call *ast.CallExpr) c18Val {
 	}
 	fn := ci.fn
 	if fn == nil {
+		// call of a function value: a local closure, a method value, a function stored in a variable or field
+		fv := m.eval(fr, call.Fun)
+		switch fv.k {
+		case c18Func:
+			args := m.evalArgs(fr, call, 0, false)
+			ret := m.callValue(fv.fn(), args, call.Ellipsis.IsValid())
+			switch len(ret) {
+			case 0:
+				return c18Val{}
+			case 1:
+				return ret[0]
+			}
+			return c18Val{k: c18Tuple, ref: ret}
+		case c18Nil:
+			m.gopanic("call of a nil function value")
+		}
 		m.abort("dynamic call %s", types.ExprString(call.Fun))
 	}
 	// terminal sink of the region mode
@@ -623,7 +723,15 @@ func (m *c18Machine) call(fr *c18Frame, call *ast.CallExpr) c18Val {
 			} else {
 				text = m.strArg(f, "sink")
 			}
-			m.emit(call, nil, text)
+			// the template: the format string, or a stored string written as it is (a string computed by a
+			// call, e.g. tparm(...), has no template: its key is derived from the text)
+			tmpl := ""
+			if isFmt {
+				tmpl = f.s
+			} else if _, computed := unparen(call.Args[arg]).(*ast.CallExpr); !computed {
+				tmpl = text
+			}
+			m.emitT(call, nil, text, tmpl)
 			return c18Val{k: c18Tuple, ref: []c18Val{c18IntV(int64(len(text))), {k: c18Nil}}}
 		}
 	}
@@ -688,15 +796,18 @@ func (m *c18Machine) call(fr *c18Frame, call *ast.CallExpr) c18Val {
 		if b == nil {
 			m.abort("%s to a writer that is neither the tracked sink nor a local builder", full)
 		}
-		text := ""
+		text, tmpl := "", ""
 		if full == "fmt.Fprintf" {
-			text = m.sprintf(m.eval(fr, call.Args[1]), m.evalArgs(fr, call, 2, true))
+			f := m.eval(fr, call.Args[1])
+			text = m.sprintf(f, m.evalArgs(fr, call, 2, true))
+			tmpl = f.s
 		} else {
 			for _, a := range m.evalArgs(fr, call, 1, true) {
 				text += fmt.Sprint(m.toAny(a))
 			}
+			tmpl = text
 		}
-		m.emit(call, b, text)
+		m.emitT(call, b, text, tmpl)
 		return c18Val{k: c18Tuple, ref: []c18Val{c18IntV(int64(len(text))), {k: c18Nil}}}
 	case "strings.Builder.WriteString", "bytes.Buffer.WriteString", "strings.Builder.String", "bytes.Buffer.String",
 		"strings.Builder.Len", "bytes.Buffer.Len", "strings.Builder.WriteByte", "bytes.Buffer.WriteByte", "strings.Builder.WriteRune", "bytes.Buffer.WriteRune",
@@ -712,7 +823,11 @@ func (m *c18Machine) call(fr *c18Frame, call *ast.CallExpr) c18Val {
 		switch fn.Name() {
 		case "WriteString":
 			text := m.strArg(m.eval(fr, call.Args[0]), "WriteString")
-			m.emit(call, b, text)
+			tmpl := ""
+			if _, computed := unparen(call.Args[0]).(*ast.CallExpr); !computed {
+				tmpl = text
+			}
+			m.emitT(call, b, text, tmpl)
 			return c18Val{k: c18Tuple, ref: []c18Val{c18IntV(int64(len(text))), {k: c18Nil}}}
 		case "WriteByte":
 			v := m.eval(fr, call.Args[0])
@@ -767,41 +882,7 @@ func (m *c18Machine) call(fr *c18Frame, call *ast.CallExpr) c18Val {
 		if !ok {
 			m.abort("method expression call")
 		}
-		selection := info.Selections[sel]
-		if selection == nil {
-			m.abort("unresolved method selection")
-		}
-		_, wantPtr := sig.Recv().Type().(*types.Pointer)
-		path := selection.Index()
-		var base c18Val
-		_, xIsPtr := info.TypeOf(sel.X).Underlying().(*types.Pointer)
-		if wantPtr && !xIsPtr && len(path) == 1 {
-			base = c18PtrV(m.lvalue(fr, sel.X))
-		} else {
-			base = m.eval(fr, sel.X)
-			for _, idx := range path[:len(path)-1] {
-				if base.k == c18Ptr {
-					if base.ptr() == nil {
-						m.gopanic("nil pointer dereference")
-					}
-					base = *base.ptr()
-				}
-				if base.k != c18Struct {
-					m.abort("promoted method through a non-struct value")
-				}
-				base = *base.strct().field(idx)
-			}
-			if !wantPtr && base.k == c18Ptr {
-				if base.ptr() == nil {
-					m.gopanic("nil pointer dereference")
-				}
-				base = *base.ptr()
-			}
-			if wantPtr && base.k != c18Ptr && base.k != c18Nil && base.k != c18Unknown {
-				m.abort("pointer-receiver method through an embedded value")
-			}
-		}
-		recv = &base
+		recv = m.recvOf(fr, sel, sig)
 	}
 	args := m.evalArgs(fr, call, 0, false)
 	ret := m.callFunc(fi, recv, args, call.Ellipsis.IsValid())
@@ -814,15 +895,60 @@ func (m *c18Machine) call(fr *c18Frame, call *ast.CallExpr) c18Val {
 	return c18Val{k: c18Tuple, ref: ret}
 }
 
+// recvOf evaluates the receiver of the method selection sel (x.m) for a method with signature sig.
+func (m *c18Machine) recvOf(fr *c18Frame, sel *ast.SelectorExpr, sig *types.Signature) *c18Val {
+	info := fr.info
+	selection := info.Selections[sel]
+	if selection == nil {
+		m.abort("unresolved method selection")
+	}
+	_, wantPtr := sig.Recv().Type().(*types.Pointer)
+	path := selection.Index()
+	var base c18Val
+	_, xIsPtr := info.TypeOf(sel.X).Underlying().(*types.Pointer)
+	if wantPtr && !xIsPtr && len(path) == 1 {
+		base = c18PtrV(m.lvalue(fr, sel.X))
+	} else {
+		base = m.eval(fr, sel.X)
+		for _, idx := range path[:len(path)-1] {
+			if base.k == c18Ptr {
+				if base.ptr() == nil {
+					m.gopanic("nil pointer dereference")
+				}
+				base = *base.ptr()
+			}
+			if base.k != c18Struct {
+				m.abort("promoted method through a non-struct value")
+			}
+			base = *base.strct().field(idx)
+		}
+		if !wantPtr && base.k == c18Ptr {
+			if base.ptr() == nil {
+				m.gopanic("nil pointer dereference")
+			}
+			base = *base.ptr()
+		}
+		if wantPtr && base.k != c18Ptr && base.k != c18Nil && base.k != c18Unknown {
+			m.abort("pointer-receiver method through an embedded value")
+		}
+	}
+	return &base
+}
+
 func (m *c18Machine) lenOf(v c18Val) (int, bool) {
 	switch v.k {
 	case c18Str:
 		return len(v.s), true
-	case c18Slice:
+	case c18Slice, c18Array:
 		sl := v.slice()
 		return sl.hi - sl.lo, true
 	case c18Nil:
 		return 0, true
+	case c18Ptr: // len(p) of a pointer to an array
+		if t := v.ptr(); t != nil && t.k == c18Array {
+			sl := t.slice()
+			return sl.hi - sl.lo, true
+		}
 	}
 	return 0, false
 }
@@ -957,7 +1083,7 @@ func (m *c18Machine) eval(fr *c18Frame, e ast.Expr) c18Val {
 		if _, isNil := obj.(*types.Nil); isNil {
 			return c18Val{k: c18Nil}
 		}
-		if b, ok := fr.env[obj]; ok {
+		if b, ok := fr.lookup(obj); ok {
 			return *b
 		}
 		if v, ok := obj.(*types.Var); ok {
@@ -969,11 +1095,31 @@ func (m *c18Machine) eval(fr *c18Frame, e ast.Expr) c18Val {
 			}
 			m.abort("read of unbound variable %s", e.Name)
 		}
+		if fn, ok := obj.(*types.Func); ok {
+			if fi := m.funcInfo(fn); fi != nil {
+				return c18Val{k: c18Func, ref: &c18FuncV{fi: fi}}
+			}
+			m.abort("function value %s (outside the repository, no model)", e.Name)
+		}
 		m.abort("identifier %s is not a value the evaluator models", e.Name)
 	case *ast.SelectorExpr:
 		if sel, ok := info.Selections[e]; ok {
+			if sel.Kind() == types.MethodVal {
+				// method value x.m: the receiver is evaluated (and, for a value receiver, copied) now
+				fn, _ := sel.Obj().(*types.Func)
+				var fi *FuncInfo
+				if fn != nil {
+					fi = m.funcInfo(fn)
+				}
+				if fi == nil {
+					m.abort("method value %s (no body in the repository)", types.ExprString(e))
+				}
+				recv := m.recvOf(fr, e, fn.Type().(*types.Signature))
+				cp := c18Copy(*recv)
+				return c18Val{k: c18Func, ref: &c18FuncV{fi: fi, recv: &cp}}
+			}
 			if sel.Kind() != types.FieldVal {
-				m.abort("method value %s", types.ExprString(e))
+				m.abort("method expression %s", types.ExprString(e))
 			}
 			return m.walkFields(m.eval(fr, e.X), sel.Index())
 		}
@@ -984,6 +1130,9 @@ func (m *c18Machine) eval(fr *c18Frame, e ast.Expr) c18Val {
 		m.abort("qualified identifier %s is not a variable or constant", types.ExprString(e))
 	case *ast.IndexExpr:
 		x := m.eval(fr, e.X)
+		if x.k == c18Ptr && x.ptr() != nil && x.ptr().k == c18Array {
+			x = *x.ptr()
+		}
 		idx := m.eval(fr, e.Index)
 		if x.k == c18Unknown || idx.k != c18Int {
 			if x.k == c18Unknown || idx.k == c18Unknown {
@@ -1008,6 +1157,9 @@ func (m *c18Machine) eval(fr *c18Frame, e ast.Expr) c18Val {
 			m.abort("3-index slice")
 		}
 		x := m.eval(fr, e.X)
+		if x.k == c18Ptr && x.ptr() != nil && x.ptr().k == c18Array {
+			x = *x.ptr()
+		}
 		n, ok := m.lenOf(x)
 		if !ok {
 			if x.k == c18Unknown {
@@ -1085,6 +1237,8 @@ func (m *c18Machine) eval(fr *c18Frame, e ast.Expr) c18Val {
 		return m.call(fr, e)
 	case *ast.CompositeLit:
 		return m.composite(fr, e)
+	case *ast.FuncLit:
+		return c18Val{k: c18Func, ref: &c18FuncV{lit: e, fr: fr}}
 	}
 	m.abort("expression %T", e)
 	return c18Val{}
@@ -1235,15 +1389,56 @@ func (m *c18Machine) compositeOf(fr *c18Frame, e *ast.CompositeLit, t types.Type
 		}
 		_ = u
 		return v
-	case *types.Slice:
-		arr := make([]c18Val, 0, len(e.Elts))
-		for _, el := range e.Elts {
-			if _, ok := el.(*ast.KeyValueExpr); ok {
-				m.abort("keyed slice literal")
+	case *types.Slice, *types.Array:
+		var elemT types.Type
+		n := -1
+		kind := c18Slice
+		switch ut := u.(type) {
+		case *types.Slice:
+			elemT = ut.Elem()
+		case *types.Array:
+			elemT, kind = ut.Elem(), c18Array
+			n = int(ut.Len())
+			if n < 0 || n > c18MaxArray {
+				m.abort("composite literal of %s", t)
 			}
-			arr = append(arr, c18Copy(m.eval(fr, el)))
 		}
-		return c18Val{k: c18Slice, ref: &c18SliceV{arr: &arr, lo: 0, hi: len(arr)}}
+		var arr []c18Val
+		next := 0
+		for _, el := range e.Elts {
+			val := el
+			if kv, ok := el.(*ast.KeyValueExpr); ok {
+				k, isConst := constInt(fr.info, kv.Key)
+				if !isConst || k < 0 || k > c18MaxArray {
+					m.abort("keyed element of a slice or array literal")
+				}
+				next, val = int(k), kv.Value
+			}
+			for len(arr) <= next {
+				arr = append(arr, c18Zero(elemT))
+			}
+			var v c18Val
+			if cl, ok := val.(*ast.CompositeLit); ok && cl.Type == nil {
+				// elided element type ({...} for T, or for *T meaning &T{...})
+				if pt, isPtr := elemT.Underlying().(*types.Pointer); isPtr {
+					inner := m.compositeOf(fr, cl, pt.Elem())
+					v = c18PtrV(&inner)
+				} else {
+					v = m.compositeOf(fr, cl, elemT)
+				}
+			} else {
+				v = c18Copy(m.eval(fr, val))
+			}
+			arr[next] = v
+			next++
+		}
+		for n >= 0 && len(arr) < n {
+			arr = append(arr, c18Zero(elemT))
+		}
+		if arr == nil {
+			arr = []c18Val{}
+		}
+		return c18Val{k: kind, ref: &c18SliceV{arr: &arr, lo: 0, hi: len(arr)}}
 	}
 	m.abort("composite literal of %s", t)
 	return c18Val{}
@@ -1257,7 +1452,7 @@ func (m *c18Machine) lvalue(fr *c18Frame, e ast.Expr) *c18Val {
 		return m.lvalue(fr, e.X)
 	case *ast.Ident:
 		obj := info.ObjectOf(e)
-		if b, ok := fr.env[obj]; ok {
+		if b, ok := fr.lookup(obj); ok {
 			return b
 		}
 		if v, ok := obj.(*types.Var); ok {
@@ -1269,7 +1464,11 @@ func (m *c18Machine) lvalue(fr *c18Frame, e ast.Expr) *c18Val {
 				if b.k != c18Struct {
 					b = c18Val{}
 				}
-				fr.env[obj] = &b
+				root := fr
+				for root.parent != nil {
+					root = root.parent
+				}
+				root.env[obj] = &b
 				return &b
 			}
 		}
@@ -1313,6 +1512,9 @@ func (m *c18Machine) lvalue(fr *c18Frame, e ast.Expr) *c18Val {
 		return box
 	case *ast.IndexExpr:
 		x := m.eval(fr, e.X)
+		if x.k == c18Ptr && x.ptr() != nil && x.ptr().k == c18Array {
+			x = *x.ptr()
+		}
 		idx := m.eval(fr, e.Index)
 		if idx.k != c18Int {
 			m.abort("store at an unknown index")
@@ -1320,7 +1522,7 @@ func (m *c18Machine) lvalue(fr *c18Frame, e ast.Expr) *c18Val {
 		if x.k == c18Nil {
 			m.gopanic("index out of range [%d] with length 0", idx.i)
 		}
-		if x.k != c18Slice {
+		if x.k != c18Slice && x.k != c18Array {
 			m.abort("store into a non-slice value")
 		}
 		sl := x.slice()
@@ -1583,9 +1785,16 @@ func (m *c18Machine) stmt(fr *c18Frame, s ast.Stmt, label string) c18Ctl {
 		x := m.eval(fr, s.X)
 		var elems []c18Val
 		isStr := false
+		if x.k == c18Ptr && x.ptr() != nil && x.ptr().k == c18Array {
+			x = *x.ptr()
+		}
 		switch x.k {
 		case c18Slice:
 			sl := x.slice()
+			elems = (*sl.arr)[sl.lo:sl.hi]
+		case c18Array:
+			// the range expression of an array is evaluated (copied) once
+			sl := c18Copy(x).slice()
 			elems = (*sl.arr)[sl.lo:sl.hi]
 		case c18Nil:
 		case c18Str:
